@@ -1127,10 +1127,14 @@ impl<'a> Model<'a> {
         if x < 0.0 {
             return Err(Error::NUM);
         }
-        let mut acc = 1.0;
+        let mut acc: f64 = 1.0;
         let mut k = 2.0;
         while k <= x {
             acc *= k;
+            if acc.is_infinite() {
+                // (171! is already too large: no need to count up to x)
+                return Err(Error::NUM);
+            }
             k += 1.0;
         }
         Ok(acc)
@@ -1143,10 +1147,13 @@ impl<'a> Model<'a> {
         if x < 0.0 {
             return Ok(1.0);
         }
-        let mut acc = 1.0;
+        let mut acc: f64 = 1.0;
         let mut k = if x % 2.0 == 0.0 { 2.0 } else { 1.0 };
         while k <= x {
             acc *= k;
+            if acc.is_infinite() {
+                return Err(Error::NUM);
+            }
             k += 2.0;
         }
         Ok(acc)
@@ -1306,11 +1313,19 @@ impl<'a> Model<'a> {
                 message: "k cannot be greater than n".to_string(),
             };
         }
-        let k = k as usize;
-        let mut result = 1.0;
+        // C(n, k) = C(n, n - k): the shorter product, which only grows
+        let k = k.min(n - k) as usize;
+        let mut result: f64 = 1.0;
         for i in 0..k {
             let t = i as f64;
             result *= (n - t) / (t + 1.0);
+            if result.is_infinite() {
+                return CalcResult::Error {
+                    error: Error::NUM,
+                    origin: cell,
+                    message: "The result is too large".to_string(),
+                };
+            }
         }
         CalcResult::Number(result)
     }
@@ -1353,11 +1368,20 @@ impl<'a> Model<'a> {
                 message: "Arguments must be non-negative integers".to_string(),
             };
         }
+        // C(n + k - 1, k) = C(n + k - 1, n - 1): the shorter product, which only grows
+        let (n, k) = if n - 1.0 < k { (k + 1.0, n - 1.0) } else { (n, k) };
         let k = k as usize;
-        let mut result = 1.0;
+        let mut result: f64 = 1.0;
         for i in 0..k {
             let t = i as f64;
             result *= (n + t) / (t + 1.0);
+            if result.is_infinite() {
+                return CalcResult::Error {
+                    error: Error::NUM,
+                    origin: cell,
+                    message: "The result is too large".to_string(),
+                };
+            }
         }
         CalcResult::Number(result)
     }
